@@ -45,6 +45,8 @@ Tolerances (DESIGN 1.4):
   * time axis: one subtraction of integers and one multiplication: rtol 1e-12, plus 4 eps max|ts| dt so that the
     algebraically equal form ts*dt - ts0*dt stays quiet.
   * CSV: both columns agree with the returned table to half a unit of the 8th decimal (the file is written at %.8f).
+  * every atol carries an absolute floor of 1e-200: generated doubles may be subnormal, and a product that underflows
+    has an absolute, not a relative, error (5e-324 / |C(0)|).
   * "same arguments twice": bit-identical, but only when the very same objects are passed again (a copy at another
     address may legitimately take a different SIMD path).
 """
@@ -85,6 +87,7 @@ ASSUMPTIONS = [
 ]
 
 HALF8 = 0.505e-8
+TINY = 1e-200  # absolute floor: generated doubles may be subnormal, where products lose RELATIVE accuracy (underflow)
 
 
 def _cell(d=2):
@@ -516,7 +519,7 @@ def check_series(case):
     if not (abs(C[0]) >= 0.05 * S[0] and S[0] > 0):
         raise RuntimeError("harness: ill-conditioned normaliser generated")  # generator bug, not a finding
     want = C / C[0]
-    atol = 1e-13 * (S + np.abs(want) * S[0]) / abs(C[0])
+    atol = 1e-13 * (S + np.abs(want) * S[0]) / abs(C[0]) + TINY
     _compare(f"time_corr ({case['rank']}, {'complex' if case['cplx'] else 'real'}, "
              f"{'even: all origins' if even else 'uneven: first frame only'})", c, want, atol)
     # does the case tell the two definitions apart?
@@ -677,7 +680,7 @@ def check_repeat(case):
         require([int(sn.timestep) for sn in snaps.snapshots] == [int(x) for x in ts] and snaps.nsnapshots == T,
                 lambda: f"{label}: the caller's snapshots were modified by the call")
         factor = 2.0 * (nterms + T + 6) * 2.0 ** -24 if stp["single"] else 1e-13
-        _compare(f"time_corr, {label}", c, want, factor * scale)
+        _compare(f"time_corr, {label}", c, want, factor * scale + TINY)
         if stp["twice"]:
             t2, c2 = _invoke(snaps, cond, ts, dt=dt, outputfile=out)
             require(t2.tobytes() == t.tobytes() and c2.tobytes() == c.tobytes(),
